@@ -174,6 +174,16 @@ func genMapFamilies(g genCfg, c ContainerKind, level int, full bool) []*MapScen 
 		add(&MapScen{Rel: RelMaxSD, NKeys: 3, Init: []int{1, 1, 0}, Table: TChain2, FillFirst: true, Threads: [][]MIn{{on(opStore, 2)}, {on(b, 0)}}})
 		add(&MapScen{Rel: RelMaxSD, NKeys: 2, Init: []int{0, 1}, Table: TGrowArmed, Threads: [][]MIn{{on(opStore, 0)}, {on(b, 1)}}, ExpectGrow: true})
 	}
+	// F15: Clear against two completed writes of one thread to an early and a late bucket (either order):
+	// Clear is one atomic step, it cannot drop the later write and spare the earlier one
+	for _, rel := range []KeyRel{RelLate, RelDD} {
+		for _, w := range []MIn{opStore, opLoS} {
+			for _, init := range [][]int{{0, 0}, {1, 1}} {
+				add(&MapScen{Rel: rel, NKeys: 2, Init: init, Table: TPlain, Threads: [][]MIn{{opClear}, {on(w, 0), on(w, 1)}}})
+				add(&MapScen{Rel: rel, NKeys: 2, Init: init, Table: TPlain, Threads: [][]MIn{{opClear}, {on(w, 1), on(w, 0)}}})
+			}
+		}
+	}
 	// F13: non-initial start: the map has grown and shrunk back to its minimum length before the scenario
 	for _, a := range []MIn{opStore, opDelete, opLoS, opCDel, opClear} {
 		for _, b := range []MIn{opLoad, opStore, opDelete, opLaD, opLoC, opClear} {
